@@ -81,7 +81,7 @@ func init() {
 	propChecks["C03"] = &PropCheck{
 		ID: "C03", Title: "Redaction preserves the JSON shape of every line",
 		Jobs: func(e *Engine, tier string) []*Job {
-			return templateJobs("H_c03", append(corpusFor(tier, nil), oddCorpus(tier)...), map[string]string{})
+			return append(templateJobs("H_c03", corpusFor(tier, nil), map[string]string{}), templateJobs("H_c03", oddCorpus(tier), map[string]string{"fix": "ns+ip"})...)
 		},
 		Functions: walkerFunctions, Witness: []string{"emitted"},
 		Bounds:      treeBounds("--redactFieldNames (renames keys by design); duplicate sibling keys; inputs as bytes (the JSON tokenizer is behind the Decoder contract)"),
@@ -91,7 +91,7 @@ func init() {
 	propChecks["C04"] = &PropCheck{
 		ID: "C04", Title: "Nothing outside the redaction zones is altered (insight preservation)",
 		Jobs: func(e *Engine, tier string) []*Job {
-			return templateJobs("H_c04", append(corpusFor(tier, nil), oddCorpus(tier)...), map[string]string{})
+			return append(templateJobs("H_c04", corpusFor(tier, nil), map[string]string{}), templateJobs("H_c04", oddCorpus(tier), map[string]string{})...)
 		},
 		Functions: walkerFunctions, Witness: []string{"emitted"},
 		Bounds:      treeBounds("number formatting inside encoding/json (number text is passed through as json.Number by contract)"),
@@ -106,6 +106,16 @@ func init() {
 		Functions: walkerFunctions, Witness: []string{"emitted"},
 		Bounds:      treeBounds("encrypt mode; selective mode"),
 		Assumptions: []string{"'e-mail shaped' = the WHATWG e-mail regular expression with length 3..254 (harness/zz_verif_h_tree.go)"},
+		Trusted:     commonTrusted,
+	}
+	propChecks["C19"] = &PropCheck{
+		ID: "C19", Title: "Redacted output is a fixed point of redaction",
+		Jobs: func(e *Engine, tier string) []*Job {
+			return append(templateJobs("H_c19", corpusFor(tier, nil), map[string]string{}), templateJobs("H_c19", oddCorpus(tier), map[string]string{"fix": "ns+ip"})...)
+		},
+		Functions: walkerFunctions, Witness: []string{"emitted"},
+		Bounds:      treeBounds("namespace / field-name pseudonymisation, encrypt mode, selective mode; e-mail-shaped replacement text"),
+		Assumptions: []string{"the emitted rope is read back as the token stream it was written from (unquote(jstr(x)) = x, number text unchanged): contract of encoding/json, engine/intr_core.go tokenizeRope"},
 		Trusted:     commonTrusted,
 	}
 	propChecks["C01"] = &PropCheck{
